@@ -21,9 +21,14 @@ RULE = ('families (disjoint): single = per option, every 4-tuple (file1,file2,fi
         'routing) and as k=v,k=v); shapes = per option every list of 0..3 files each missing/empty/unknown-section/'
         'header-only/unknown-key/setting x argv omit/set; pairs = every unordered pair of options x every assignment '
         'of a subset of {A,B} to each source; interp = every ordered pair (string or list option A whose value '
-        'references option B) x template x source of A x source of B, plus chains; doc = documented defaults and '
+        'references option B) x template x source of A x source of B, plus chains; reread = ONE live '
+        'ConfigManager driven through every history of <= 3 (quick; thorough 4) '
+        'steps from a menu of read(file) / updateFromDict(parsed argv) / config[sec][key]=v steps on string and '
+        'list options holding %(other)s references and on the options they name, with a read-back of all options '
+        'after construction and after every step, each compared with the model; doc = documented defaults and '
         'the pinned option table.  Each case runs plasTeX.client.main on printed files/argv and compares the '
-        'read-back of all options with the model.  non-trivial = at least one source sets a value; distinct = '
+        'read-back of all options with the model.  non-trivial = at least one source sets a value (reread: at least '
+        'one step); distinct = '
         'distinct abstract case; outcomes = distinct observed read-back snapshots')
 ASSUMPTIONS = [
     'oracle is a hand-written precedence fold with a pinned copy of the option table (vp/refs/c16_config_model.py); '
@@ -271,6 +276,8 @@ def judge(case, scratch=None):
     """-> (verdict, fids, expected, observed, detail)"""
     if case.get('fam') == 'doc':
         return judge_doc(case)
+    if case.get('fam') == 'reread':
+        return judge_reread(case, scratch)
     own = scratch is None
     if own:
         scratch = Scratch()
@@ -296,7 +303,9 @@ def replay(case):
     v, fids, exp, obs, detail = judge(case)
     scratch = Scratch()
     try:
-        if case.get('fam') != 'doc':
+        if case.get('fam') == 'reread':
+            detail = '%s | history=%s' % (detail, json.dumps(print_history(case)))
+        elif case.get('fam') != 'doc':
             argv, texts = print_case(case, scratch)
             detail = '%s | argv=%s | files=%s' % (detail, json.dumps([a.replace(scratch.dir, '<dir>') for a in argv]),
                                                  json.dumps(texts))
@@ -568,7 +577,163 @@ def gen_doc(block, tier):
         yield {'fam': 'doc', 'what': 'default', 'o': [sec, key]}
 
 
-GENS = {'single': gen_single, 'shapes': gen_shapes, 'pairs': gen_pairs, 'interp': gen_interp,
+# -- family 'reread': one live ConfigManager, read back after every step --------------------------
+# Step menu.  References: theme -> renderer, title -> theme | kpsewhich, kpsewhich -> split-level,
+# extra-css -> renderer | theme | title (no cycle).  No upper-case dictionary keys (strict oracle only).
+_TH, _RE, _TI, _KP = ['general', 'theme'], ['general', 'renderer'], ['document', 'title'], ['general', 'kpsewhich']
+_CSS, _SPL = ['html5', 'extra-css'], ['files', 'split-level']
+REREAD_MENU = [
+    {'k': 'file', 'ops': [{'o': _TH, 'v': ['s', 't-%(renderer)s']}]},
+    {'k': 'file', 'ops': [{'o': _RE, 'v': ['s', 'R1']}]},
+    {'k': 'cli', 'ops': [{'o': _RE, 'v': ['S', ['R2'], 'sp', 0]}]},
+    {'k': 'set', 'o': _RE, 'val': 'R3'},
+    {'k': 'file', 'ops': [{'o': _CSS, 'v': ['l', ['c-%(renderer)s.css', 'plain.css'], 'dq']}]},
+    {'k': 'cli', 'ops': [{'o': _TH, 'v': ['S', ['u%(renderer)s%%'], 'eq', 0]}]},
+    {'k': 'set', 'o': _TI, 'val': '<%(theme)s>'},
+    {'k': 'set', 'o': _CSS, 'val': ['%(theme)s.css']},
+    {'k': 'set', 'o': _KP, 'val': 'k%(split-level)d'},
+    {'k': 'cli', 'ops': [{'o': _SPL, 'v': ['S', [0], 'sp', 0]}]},
+    # second half of the menu: two options per file, list reference through title, reference removed
+    {'k': 'file', 'ops': [{'o': _SPL, 'v': ['i', 4, 'plain']}, {'o': _TI, 'v': ['s', '%(kpsewhich)s!']}]},
+    {'k': 'file', 'ops': [{'o': _RE, 'v': ['s', 'R4']}, {'o': _TH, 'v': ['s', 'same-file-%(renderer)s']}]},
+    {'k': 'cli', 'ops': [{'o': _CSS, 'v': ['L', [['x%(title)s']]]}]},
+    {'k': 'set', 'o': _TH, 'val': 'plain'},
+]
+REREAD_QUICK = len(REREAD_MENU)
+
+
+def reread_params(tier):
+    return (REREAD_QUICK, 3) if tier == 'quick' else (len(REREAD_MENU), 4)
+
+
+def gen_reread(block, tier):
+    """block = ('reread', i, j): histories that start with step i then step j (j = -1: the history [i];
+    i = -1: the empty history)."""
+    _, i, j = block
+    n, maxlen = reread_params(tier)
+    if i < 0:
+        yield {'fam': 'reread', 'h': []}
+        return
+    if j < 0:
+        yield {'fam': 'reread', 'h': [i]}
+        return
+    for L in range(0, maxlen - 2 + 1):
+        for tail in itertools.product(range(n), repeat=L):
+            yield {'fam': 'reread', 'h': [i, j] + list(tail)}
+
+
+def print_history(case):
+    idx = M.opt_index(False)
+    out = ['config = defaultConfig(); collect_renderer_config(config); read back all options']
+    for hi in case['h']:
+        st = REREAD_MENU[hi]
+        if st['k'] == 'file':
+            out.append('config.read(file %r); read back all' % M.print_file(st['ops']))
+        elif st['k'] == 'cli':
+            argv = []
+            for op in st['ops']:
+                argv += M.print_cli(op, idx)
+            out.append('config.updateFromDict(vars(parser.parse_args(%r))); read back all' % argv)
+        else:
+            out.append('config[%r][%r] = %r; read back all' % (st['o'][0], st['o'][1], st['val']))
+    return out
+
+
+def observe_reread(case, scratch):
+    """-> list of snapshots (one after construction, one after every step) | 'raises:X' | 'timeout'"""
+    from argparse import ArgumentParser
+    from plasTeX.Config import defaultConfig
+    import plasTeX.client as cl
+    idx = M.opt_index(False)
+    so, se = sys.stdout, sys.stderr
+    sys.stdout = sys.stderr = _Null()
+    snaps = []
+    try:
+        with core.time_limit(20.0):
+            config = defaultConfig()
+            cl.collect_renderer_config(config)
+            parser = ArgumentParser('plasTeX')
+            config.registerArgparse(parser)
+            snaps.append(snapshot(config))
+            for hi in case['h']:
+                st = REREAD_MENU[hi]
+                if st['k'] == 'file':
+                    config.read(scratch.path_for(M.print_file(st['ops'])))
+                elif st['k'] == 'cli':
+                    argv = []
+                    for op in st['ops']:
+                        argv += M.print_cli(op, idx)
+                    config.updateFromDict(vars(parser.parse_args(argv)))
+                else:
+                    val = st['val']
+                    config[st['o'][0]][st['o'][1]] = list(val) if isinstance(val, list) else val
+                snaps.append(snapshot(config))
+    except core.Timeout:
+        return 'timeout'
+    except SystemExit:
+        return 'raises:SystemExit after %d steps' % (len(snaps) - 1)
+    except Exception as e:
+        return 'raises:%s after %d steps' % (type(e).__name__, len(snaps) - 1)
+    finally:
+        sys.stdout, sys.stderr = so, se
+    return snaps
+
+
+def expected_reread(case, dev=0):
+    """-> (snapshots, number of steps after which an option with an UNCHANGED raw value that contains a
+    reference reads back differently than before -- the situation a stale expansion cache gets wrong)"""
+    try:
+        m = M.Model(False, dev)
+        snaps = [m.snapshot_fast()]
+        stale_chances = 0
+        for hi in case['h']:
+            before = dict(m.state)
+            m.apply_step(REREAD_MENU[hi])
+            snaps.append(m.snapshot_fast())
+            for (s, k), raw in m.state.items():
+                if raw == before[(s, k)] and '%(' in json.dumps(raw) and \
+                        snaps[-1]['%s/%s' % (s, k)] != snaps[-2]['%s/%s' % (s, k)]:
+                    stale_chances += 1
+                    break
+        return snaps, stale_chances
+    except M.ModelError as e:
+        return 'model-error:%s' % e, 0
+
+
+def _first_diff(exp, obs):
+    if not isinstance(obs, list) or not isinstance(exp, list):
+        return exp if not isinstance(exp, list) else '%d read-back snapshots' % len(exp), obs
+    for i, (e, o) in enumerate(zip(exp, obs)):
+        if e != o:
+            de, do = _diff(e, o)
+            return {'read-back after step': i, 'options': de}, {'read-back after step': i, 'options': do}
+    return {'snapshots': len(exp)}, {'snapshots': len(obs)}
+
+
+def judge_reread(case, scratch=None):
+    global LAST_OBS
+    own = scratch is None
+    if own:
+        scratch = Scratch()
+    try:
+        obs = observe_reread(case, scratch)
+    finally:
+        if own:
+            scratch.close()
+    LAST_OBS = obs
+    exp, _ = expected_reread(case, 0)
+    if obs == exp:
+        return 'ok', [], None, None, ''
+    for dev, names in devsets():
+        if obs == expected_reread(case, dev)[0]:
+            e, o = _first_diff(exp, obs)
+            return 'known', names, e, o, 'read-backs equal the model with deviation(s) %s' % '+'.join(names)
+    e, o = _first_diff(exp, obs)
+    return 'violation', [], e, o, ('a read-back after a step of the history differs from the model '
+                                   '(value set last wins; references are expanded with the CURRENT values)')
+
+
+GENS = {'reread': gen_reread, 'single': gen_single, 'shapes': gen_shapes, 'pairs': gen_pairs, 'interp': gen_interp,
         'chain': gen_chain, 'doc': gen_doc}
 
 
@@ -623,17 +788,27 @@ def run_block(block):
             if fam == 'doc':
                 outcome = (json.dumps(case, sort_keys=True), json.dumps(obs_d, sort_keys=True))
                 nontrivial = True
+            elif fam == 'reread':
+                nontrivial = len(case['h']) >= 1
+                outcome = json.dumps(LAST_OBS, sort_keys=True)
+                chances = expected_reread(case, 0)[1]
+                if chances:
+                    rep.count('reread_histories_with_stale_cache_chance')
+                rep.count('reread_readbacks', len(case['h']) + 1)
             else:
                 nontrivial = _sets_something(case)
                 outcome = None
             key = json.dumps(case, sort_keys=True)
-            if fam != 'doc':
+            if fam not in ('doc', 'reread'):
                 outcome = json.dumps(LAST_OBS, sort_keys=True)
                 _features(case, rep)
             rep.case(key=key, nontrivial=nontrivial, outcome=outcome)
             rep.count('fam_' + fam)
             if v == 'ok':
-                if nontrivial and len(rep.samples) < 1 and fam != 'doc' and len(case.get('files', [])) + len(case['argv']) >= 2:
+                if fam == 'reread':
+                    if len(case['h']) >= 3 and len(rep.samples) < 1 and block[1] == 0 and block[2] == 1:
+                        rep.sample({'family': fam, 'history': print_history(case)})
+                elif nontrivial and len(rep.samples) < 1 and fam != 'doc' and len(case.get('files', [])) + len(case['argv']) >= 2:
                     argv, texts = print_case(case, scratch)
                     rep.sample({'family': fam, 'argv': [a.replace(scratch.dir, '<dir>') for a in argv],
                                 'files': texts})
@@ -660,6 +835,11 @@ def run(tier, seed, rep):
             blocks.append(('pairs', synth, oi, tier))
             if row[2] in ('str', 'list'):
                 blocks.append(('interp', synth, oi, tier))
+    nmenu, maxlen = reread_params(tier)
+    blocks.append(('reread', -1, -1, tier))
+    for i in range(nmenu):
+        for j in range(-1, nmenu):
+            blocks.append(('reread', i, j, tier))
     # the small families first, so that the example kept for a deviation is a short one
     small = [b for b in blocks if b[0] in ('doc', 'shapes')]
     rest = [b for b in blocks if b[0] not in ('doc', 'shapes')]
@@ -671,8 +851,10 @@ def run(tier, seed, rep):
         'shape_files_max': 2 if tier == 'quick' else 3, 'shape_states': len(SHAPE_STATES),
         'pair_sources': 2 if tier == 'quick' else 3,
         'interp_templates': 2 if tier == 'quick' else 3,
+        'reread_step_menu': nmenu, 'reread_max_history': maxlen,
     }
     return {'exhaustive': True, 'bounds': bounds, 'blocks': len(blocks),
             'floors': {'evaluations': 50000, 'cli_over_file': 1000, 'file_over_file': 1000,
                        'file_bool_false_spelling': 1000, 'dict_routed_lines': 100, 'interpolation_refs': 1000,
-                       'list_from_several_sources': 100, 'cli_falsy_value': 100, 'unknown_key_lines': 100}}
+                       'list_from_several_sources': 100, 'cli_falsy_value': 100, 'unknown_key_lines': 100,
+                       'fam_reread': 1000, 'reread_histories_with_stale_cache_chance': 200}}
